@@ -6,7 +6,7 @@ Extraction Language OCaml.
 Extraction "model.ml" BinInt.Z.add BinInt.Z.sub BinInt.Z.ltb BinInt.Z.leb BinInt.Z.eqb Base.be_value Base.be_encode Base.wf_bytes Base.beq_bytes
   Ttl.decttl Ttl.checkttl Ttl.addttlattr Ttl.attrvalidate Ttl.ttl_stage_check Ttl.ttl_stage_add
   Route.realm_matches Route.realm_regex Route.dyn_step Route.dynrealm Route.srv_query Route.srv_hostports Udp.udp_run Udp.udp_arrival Dyn.merge_dyn Dyn.secret_len Route.after_last_at Route.realm_char_ok Spec_C08.ends_with_at_name Spec_C08.name_ok
-  Cookie.cookie_verify Cert.verifyconfcert Cert.nairealm_value_match Cert.host_pattern_match
+  Cookie.cookie_verify Cookie.tstamp_le Cookie.ts_encode_le Cookie.standin_hash Cert.verifyconfcert Cert.nairealm_value_match Cert.host_pattern_match
   Log.radattr2ascii Log.replylog_fields_of Log.fticks_realm Log.fticks_csi Log.hashmac Spec_C18.all_printable Spec_C18.all_lower_hex Spec_C18.normal_form
   Frame.reader Frame.radget Spec_C16.frames Spec_C16.is_prefix_of Spec_C16.list_beq
   Addr.find_conf_from Addr.find_conf Addr.addressmatches Spec_C14.spec_find Spec_C14.spec_entry
